@@ -40,6 +40,22 @@ def compare(src: str, out: str, r: Result, what=("stack",), rgba_tol=1.5 / 255, 
             interference = False
         if interference:
             r.violations = [(c, m + "  [each shape converts correctly in a document of its own: the mismatch needs the other shapes' presence, so it is not an engine failure]") for c, m in r.violations]
+    # pre-engine stage: picosvg's pure-Python rewrites (basic shapes -> paths, shorthand expansion, absolute form) never
+    # touch skia-pathops.  If the source already renders differently from its own engine-free rewrite, the mismatch
+    # arose before the engine was asked anything - it stays a violation whatever the twins below would say (their
+    # polygonal / jittered sources bypass exactly that shape-to-path code).
+    if attribute and not interference and r.violations and all(c in ("stack-differs", "colour-differs") for c, _ in r.violations):
+        try:
+            from picosvg.svg import SVG as _SVG
+
+            pre = _SVG.fromstring(src).shapes_to_paths().expand_shorthand().absolute().tostring()
+            r0 = Result()
+            st0 = _compare(src, pre, r0, what, rgba_tol, strokes, gradients, min_trusted, label)
+            if st0 and r0.violations and not r0.rejected:
+                interference = True  # (re-uses the flag: skip the engine attribution stages)
+                r.violations = [(c, m + "  [the engine-free rewrite shapes_to_paths().expand_shorthand().absolute() of the source already renders differently: not an engine failure]") for c, m in r.violations]
+        except Exception:
+            pass
     if attribute and not interference and r.violations and all(c in ("stack-differs", "colour-differs") for c, _ in r.violations):
         try:
             from vlib.refsvg import polygonal
